@@ -30,7 +30,35 @@ func TestMain(m *testing.M) { vk.Main(m) }
 // delete single lines) as the defects get fixed in /repo: every class not listed is a VIOLATION.
 // Class names carry the source line of the panic site, so an entry also goes stale (= is reported again)
 // when the file above it changes.
-var knownOpen = map[string]bool{}
+var knownOpen = map[string]bool{
+	"arrayOperator@compiler.go: reflect: call of unknown method on wrong-kind Value": true,
+	"evalAccessIndex@compiler.go: hash of unhashable type T": true,
+	"evalAccessIndex@compiler.go: invalid memory address or nil pointer dereference": true,
+	"evalAccessIndex@compiler.go: reflect.Value.MapIndex: value of type T is not assignable to type U": true,
+	"evalAccessIndex@compiler.go: reflect: index out of range": true,
+	"evalCallExpression@compiler.go: reflect.Value.Call: call of nil function": true,
+	"evalCallExpression@compiler.go: reflect: call of reflect.Value.MethodByName on the zero reflect.Value": true,
+	"evalCallExpression@compiler.go: value method called using nil pointer": true,
+	"evalUpdateIndex@compiler.go: assignment to entry in nil map": true,
+	"evalUpdateIndex@compiler.go: hash of unhashable type T": true,
+	"evalUpdateIndex@compiler.go: reflect.Value.SetMapIndex: value of type T is not assignable to type U": true,
+	"evalUpdateIndex@compiler.go: reflect: call of reflect.Value.Set on the zero reflect.Value": true,
+	"evalUpdateIndex@compiler.go: reflect: call of reflect.Value.SetMapIndex on the zero reflect.Value": true,
+	"evalUpdateIndex@compiler.go: reflect: call of reflect.Value.Type on the zero reflect.Value": true,
+	"evalUpdateIndex@compiler.go: reflect: index out of range": true,
+	"evalUpdateIndex@compiler.go: reflect: reflect.Value.Set using unaddressable value": true,
+	"evalUserFunction@compiler.go: index out of range [N] with length N": true,
+	"helpers/content.ContentFor@for.go: invalid memory address or nil pointer dereference": true,
+	"helpers/content.ContentOf@of.go: invalid memory address or nil pointer dereference": true,
+	"helpers/escapes.HTMLEscape@html.go: invalid memory address or nil pointer dereference": true,
+	"helpers/meta.Len@len.go: reflect: call of reflect.Value.Len on the zero reflect.Value": true,
+	"helpers/meta.Len@len.go: reflect: call of reflect.Value.Len on wrong-kind Value": true,
+	"helpers/paths.PathFor@path_for.go: reflect: call of reflect.Value.Type on the zero reflect.Value": true,
+	"helpers/text.Truncate@truncate.go: assignment to entry in nil map": true,
+	"helpers/text.Truncate@truncate.go: interface conversion: interface is T, not U": true,
+	"write@compiler.go: invalid memory address or nil pointer dereference": true,
+	"write@compiler.go: value method called using nil pointer": true,
+}
 
 // ---- the value pool -----------------------------------------------------------------------------------
 
@@ -352,26 +380,36 @@ func buildData(vars []string) (map[string]interface{}, error) {
 
 // ---- oracle ---------------------------------------------------------------------------------------------
 
-var (
-	reNum  = regexp.MustCompile(`0x[0-9a-f]+|-?\d+`)
-	reType = regexp.MustCompile(`(\*|\[\]|\[N\])*(map\[[^\]]*\])?(\*|\[\]|\[N\])*\b(c04\.|plush\.|template\.|time\.|hctx\.|reflect\.|fmt\.)?(interface \{\}|struct \{[^}]*\}|func\([^)]*\)( \([^)]*\)| [a-zA-Z0-9.*\[\]]+)?|u?int(8|16|32|64|N)?|float(32|64|N)|string|bool|S|Str|Hr|Ifc|iterT|HTML|Time|HelperContext|Map|Value|Stringer)\b`)
-)
+var msgRules = []struct {
+	re *regexp.Regexp
+	to string
+}{
+	{regexp.MustCompile(`hash of unhashable type .*`), "hash of unhashable type T"},
+	{regexp.MustCompile(`value of type .* (is )?not assignable to type .*`), "value of type T is not assignable to type U"},
+	{regexp.MustCompile(`interface conversion: .* is .*, not .*`), "interface conversion: interface is T, not U"},
+	{regexp.MustCompile(`value method .* called using nil .* pointer`), "value method called using nil pointer"},
+	{regexp.MustCompile(`call of (reflect\.Value\.\w+) on zero Value`), "call of $1 on the zero reflect.Value"},
+	{regexp.MustCompile(`call of (reflect\.Value\.\w+) on .* Value$`), "call of $1 on wrong-kind Value"},
+	{regexp.MustCompile(`call of unknown method on .* Value`), "call of unknown method on wrong-kind Value"},
+	{regexp.MustCompile(`(array|slice|string) index out of range`), "index out of range"},
+	{regexp.MustCompile(`Call using .* as type .*`), "Call using T as type U"},
+	{regexp.MustCompile(`0x[0-9a-f]+|-?\d+`), "N"},
+}
 
 // msgKind normalises a panic message so that one root cause gives one text whatever the operand values
-// and types were: numbers become N, Go type names become T.
+// and types were.
 func msgKind(p interface{}) string {
 	s := fmt.Sprint(p)
 	if e, ok := p.(error); ok {
 		s = e.Error()
 	}
 	s = strings.TrimPrefix(s, "runtime error: ")
-	s = reNum.ReplaceAllString(s, "N")
-	for i := 0; i < 3; i++ {
-		s = reType.ReplaceAllString(s, "T")
+	for _, r := range msgRules {
+		s = r.re.ReplaceAllString(s, r.to)
 	}
 	s = strings.Join(strings.Fields(s), " ")
-	if len(s) > 90 {
-		s = s[:90]
+	if len(s) > 100 {
+		s = s[:100]
 	}
 	return s
 }
@@ -390,6 +428,11 @@ func site(res vk.Res) string {
 	}
 	return s
 }
+
+var reLine = regexp.MustCompile(`:\d+$`)
+
+// siteKey is site without the line number: class names stay valid while the file is edited elsewhere.
+func siteKey(res vk.Res) string { return reLine.ReplaceAllString(site(res), "") }
 
 // inCall reports whether the panic was raised underneath the reflect.Value.Call of evalCallExpression,
 // i.e. whether a recover() around that call (text/template's safeCall) would turn it into an error.
@@ -413,6 +456,7 @@ type classInfo struct {
 	wit      Case
 	msg      string
 	site2    string
+	sites    map[string]bool
 	matrices map[string]int64
 }
 
@@ -451,10 +495,11 @@ func record(class string, c Case, res vk.Res) {
 	root := rootOf(class)
 	ci := classes[root]
 	if ci == nil {
-		ci = &classInfo{wit: c, msg: fmt.Sprint(res.Panic), site2: res.PanicSite(), matrices: map[string]int64{}}
+		ci = &classInfo{wit: c, msg: fmt.Sprint(res.Panic), site2: res.PanicSite(), sites: map[string]bool{}, matrices: map[string]int64{}}
 		classes[root] = ci
 	}
 	ci.n++
+	ci.sites[site(res)] = true
 	ci.matrices[c.Matrix]++
 	if inCall(res) {
 		ci.inCall++
@@ -518,13 +563,23 @@ func check(r *vk.Run, c Case, nt bool, sub string) *vk.Fail {
 	if nt {
 		key = c.Matrix + "|" + string(c.Tmpl)
 	}
+	if c.Matrix == "random" { // generator health: how far do random programs get
+		switch {
+		case res.Panicked():
+			sub += "/panic"
+		case res.Err != nil:
+			sub += "/error"
+		default:
+			sub += "/ok"
+		}
+	}
 	r.Count(key, sub)
 	r.Sample(func() interface{} {
 		return map[string]interface{}{"matrix": c.Matrix, "template": c.Tmpl, "vars": c.Vars, "result": res.String()}
 	})
 	switch {
 	case res.Panicked():
-		class := c.Matrix + "/" + site(res) + ": " + msgKind(res.Panic)
+		class := c.Matrix + "/" + siteKey(res) + ": " + msgKind(res.Panic)
 		if !replaying {
 			record(class, c, res)
 		}
@@ -544,8 +599,8 @@ var (
 
 func noteParse(c Case, err error) {
 	parseMu.Lock()
-	if len(parseNotes) < 12 {
-		parseNotes[string(c.Tmpl)] = err.Error()
+	if len(parseNotes) < 4000 {
+		parseNotes[c.Matrix+" "+string(c.Tmpl)] = strings.SplitN(err.Error(), "\n", 2)[0]
 	}
 	parseMu.Unlock()
 }
@@ -639,6 +694,9 @@ var members = []string{
 func matrixMember() []cell {
 	var out []cell
 	for _, rcv := range pool {
+		if rcv.Spell != "" {
+			continue // member access on a literal does not parse
+		}
 		natural := !rcv.Odd && (rcv.Name == "sval" || rcv.Name == "pS")
 		for _, m := range members {
 			nt := !natural || strings.Contains(m, "Nope") || strings.Contains(m, "hidden")
@@ -878,7 +936,47 @@ func (g *progGen) leaf() string {
 	}
 	p := rapid.SampledFrom(pool).Draw(g.t, "leaf")
 	g.used[p.Name] = true
+	for _, v := range []string{"strlong", "ints", "str"} { // spellings that mention other pool values: none today
+		_ = v
+	}
 	return p.spell()
+}
+
+// ident: a leaf that is an identifier (bound pool value, template-defined function or let-variable)
+func (g *progGen) ident() string {
+	if len(g.lets) > 0 && rapid.IntRange(0, 5).Draw(g.t, "uselet") == 0 {
+		return rapid.SampledFrom(g.lets).Draw(g.t, "let")
+	}
+	p := rapid.SampledFrom(idents).Draw(g.t, "ident")
+	g.used[p.Name] = true
+	return p.Name
+}
+
+// simple: an expression that is not an array or hash literal and needs no parentheses (loop iterables, conditions)
+func (g *progGen) simple(d int) string {
+	switch rapid.IntRange(0, 5).Draw(g.t, "simplekind") {
+	case 0, 1:
+		return g.ident()
+	case 2:
+		return g.ident() + "[" + g.expr(d-1) + "]"
+	case 3:
+		return g.ident() + rapid.SampledFrom([]string{".L", ".M", ".P", ".Any", ".F", ".Nope"}).Draw(g.t, "member")
+	case 4:
+		if d > 0 {
+			return g.call(d)
+		}
+	}
+	return g.leaf()
+}
+
+func (g *progGen) cond(d int) string {
+	switch rapid.IntRange(0, 3).Draw(g.t, "condkind") {
+	case 0:
+		return fmt.Sprintf("%s %s %s", g.operand(d), rapid.SampledFrom(binops).Draw(g.t, "op"), g.operand(d))
+	case 1:
+		return "!" + g.simple(d)
+	}
+	return g.simple(d)
 }
 
 func (g *progGen) callee() string {
@@ -903,11 +1001,103 @@ func (g *progGen) callee() string {
 
 var helpersForRandom []string
 
+var idents []*pv // pool values spelled as identifiers
+
 var scalars = []string{"int", "intneg", "int64", "uint8", "float64", "str", "strempty", "btrue", "nil", "unk", "nilpS", "nilptime", "sval", "html", "tim", "f0", "lit_int", "lit_str"}
+
+func (g *progGen) use(names ...string) {
+	for _, n := range names {
+		g.used[n] = true
+	}
+}
+
+// intExpr: an expression that evaluates to an int (so that evaluation gets past it and reaches what follows)
+func (g *progGen) intExpr(d int) string {
+	k := rapid.IntRange(0, 9).Draw(g.t, "intexpr")
+	if d <= 0 && k > 4 {
+		k -= 5
+	}
+	switch k {
+	case 0:
+		g.use("int")
+		return "int"
+	case 1:
+		g.use("int0")
+		return "int0"
+	case 2:
+		g.use("intneg")
+		return "intneg"
+	case 3:
+		return fmt.Sprint(rapid.IntRange(0, 4).Draw(g.t, "small"))
+	case 4:
+		g.use("strs")
+		return "len(strs)"
+	case 5:
+		g.use("f1")
+		return "f1(" + g.intExpr(d-1) + ")"
+	case 6:
+		return g.intExpr(d-1) + " " + rapid.SampledFrom([]string{"+", "-", "*"}).Draw(g.t, "arith") + " " + g.intExpr(d-1)
+	case 7:
+		g.use("ints")
+		return "ints[" + g.intExpr(d-1) + "]"
+	case 8:
+		g.use("pS")
+		return "pS.Add(" + g.intExpr(d-1) + ")"
+	default:
+		g.use("fvar")
+		return "fvar(" + g.intExpr(d-1) + ", " + g.intExpr(d-1) + ")"
+	}
+}
+
+// natural: a well-typed construct around arbitrary sub-expressions
+func (g *progGen) natural(d int) string {
+	switch rapid.IntRange(0, 11).Draw(g.t, "natural") {
+	case 0:
+		return g.intExpr(d)
+	case 1:
+		c := rapid.SampledFrom([]string{"ints", "anys", "strs", "structs", "pstructs", "arr", "parr", "bytes"}).Draw(g.t, "seq")
+		g.use(c)
+		return c + "[" + g.intExpr(d-1) + "]"
+	case 2:
+		c := rapid.SampledFrom([]string{"msi", "msa", "msS", "maa"}).Draw(g.t, "map")
+		g.use(c)
+		return c + "[" + rapid.SampledFrom([]string{`"a"`, `"abc"`, `"zz"`}).Draw(g.t, "key") + "]"
+	case 3:
+		g.use("str")
+		return "str + " + g.operand(d-1)
+	case 4:
+		g.use("fany")
+		return "fany(" + g.expr(d-1) + ")"
+	case 5:
+		g.use("ufn")
+		return "ufn(" + g.expr(d-1) + ", " + g.expr(d-1) + ")"
+	case 6:
+		c := rapid.SampledFrom([]string{"ints", "anys", "strs", "msi", "str", "arr", "pints", "lit_arr"}).Draw(g.t, "sized")
+		g.use(c)
+		return "len(" + P(c).spell() + ")"
+	case 7:
+		g.use("anys")
+		return "anys + " + g.operand(d-1)
+	case 8:
+		g.use("fvar2")
+		return "fvar2(str, " + g.expr(d-1) + ", " + g.expr(d-1) + ")"
+	case 9:
+		g.use("strlong")
+		return fmt.Sprintf(`truncate(strlong, {"size": %s})`, g.intExpr(d-1))
+	case 10:
+		g.use("ints")
+		return "groupBy(" + g.intExpr(d-1) + ", ints)"
+	default:
+		return g.operand(d-1) + " == " + g.operand(d-1)
+	}
+}
 
 func (g *progGen) expr(d int) string {
 	if d <= 0 {
 		return g.leaf()
+	}
+	if rapid.IntRange(0, 9).Draw(g.t, "wellTyped") < 4 {
+		return g.natural(d)
 	}
 	switch rapid.IntRange(0, 11).Draw(g.t, "expr") {
 	case 0, 1:
@@ -919,7 +1109,8 @@ func (g *progGen) expr(d int) string {
 	case 5, 6:
 		return fmt.Sprintf("%s[%s]", g.operand(d-1), g.expr(d-1))
 	case 7:
-		return g.operand(d-1) + rapid.SampledFrom([]string{".F", ".N", ".P", ".L", ".M", ".Any", ".Nope", ".hidden", ".Hello()", ".PHello()", ".Add(1)", ".Fail()", ".T"}).Draw(g.t, "member")
+		// member access is only spelled on identifiers (the parser rejects it after ")" and after literals)
+		return g.ident() + rapid.SampledFrom([]string{".F", ".N", ".P", ".L", ".M", ".Any", ".Nope", ".hidden", ".Hello()", ".PHello()", ".Add(1)", ".Fail()", ".T"}).Draw(g.t, "member")
 	case 8, 9:
 		return g.call(d)
 	case 10:
@@ -990,12 +1181,12 @@ func (g *progGen) stmts(d int, inLoop, inFn bool) string {
 			// would make every later traversal (emit, inspect) recurse until the fatal stack overflow
 			v := rapid.SampledFrom(scalars).Draw(g.t, "assigned")
 			g.used[v] = true
-			fmt.Fprintf(&sb, "<%% %s[%s] = %s %%>", g.leaf(), g.expr(d-1), P(v).spell())
+			fmt.Fprintf(&sb, "<%% %s[%s] = %s %%>", g.ident(), g.expr(d-1), P(v).spell())
 		case k == 6 && d > 0:
-			fmt.Fprintf(&sb, "<%%= if (%s) { %%>%s<%% } else { %%>%s<%% } %%>", g.expr(d-1), g.stmts(d-1, inLoop, inFn), g.stmts(d-1, inLoop, inFn))
+			fmt.Fprintf(&sb, "<%%= if (%s) { %%>%s<%% } else { %%>%s<%% } %%>", g.cond(d-1), g.stmts(d-1, inLoop, inFn), g.stmts(d-1, inLoop, inFn))
 		case k == 7 && d > 0 && g.loops < 3:
 			g.loops++
-			fmt.Fprintf(&sb, "<%%= for (k%[1]d, v%[1]d) in %[2]s { %%>", g.loops, g.expr(d-1))
+			fmt.Fprintf(&sb, "<%%= for (k%[1]d, v%[1]d) in %[2]s { %%>", g.loops, g.simple(d-1))
 			g.lets = append(g.lets, fmt.Sprintf("k%d", g.loops), fmt.Sprintf("v%d", g.loops))
 			sb.WriteString(g.stmts(d-1, true, inFn))
 			g.lets = g.lets[:len(g.lets)-2]
@@ -1088,6 +1279,12 @@ func setup(t *testing.T) *vk.Run {
 		return f
 	})
 	helpersForRandom = helperNames()
+	idents = nil
+	for _, p := range pool {
+		if p.Spell == "" {
+			idents = append(idents, p)
+		}
+	}
 	return r
 }
 
@@ -1125,7 +1322,7 @@ func TestProp(t *testing.T) {
 	runCells(r, "helper: every built-in x 0-2 arguments from the whole pool (+block for 0-1) + 3 arguments from 8 kinds + 2 of 8 with block + option maps/composition x pool", matrixHelper(r))
 	runCells(r, "stmt: pool x 23 statement shapes", matrixStmt())
 
-	r.Rapid("random", r.Pick(6000, 60000), func(t *rapid.T) *vk.Fail {
+	r.Rapid("random", r.Pick(20000, 150000), func(t *rapid.T) *vk.Fail {
 		c := genProgram(t)
 		f := check(r, c, true, "random")
 		if f != nil && f.Class != "" && (isKnown(r, f.Class) || seenInMatrices(f.Class)) {
@@ -1173,8 +1370,13 @@ func report(r *vk.Run) {
 			}
 		}
 		sort.Strings(ms)
-		fmt.Printf("NOTE: class %q %s cells=%v under-reflect-Call=%s frames=[%s] witness=%s vars=%v panic=%q\n", class, status, ms, cov, ci.site2, ci.wit.Tmpl, ci.wit.Vars, ci.msg)
-		summary = append(summary, map[string]interface{}{"class": class, "status": status, "cells": ci.matrices, "under_reflect_call": cov, "witness": ci.wit, "panic": ci.msg, "frames": ci.site2})
+		var sites []string
+		for x := range ci.sites {
+			sites = append(sites, x)
+		}
+		sort.Strings(sites)
+		fmt.Printf("NOTE: class %q %s cells=%v under-reflect-Call=%s sites=%v witness=%s vars=%v panic=%q\n", class, status, ms, cov, sites, ci.wit.Tmpl, ci.wit.Vars, ci.msg)
+		summary = append(summary, map[string]interface{}{"class": class, "status": status, "cells": ci.matrices, "under_reflect_call": cov, "witness": ci.wit, "panic": ci.msg, "sites": sites, "frames": ci.site2})
 		if !known && !onlyRandom { // failures seen only in the random phase were reported by r.Rapid
 			r.Violation(&vk.Fail{Kind: "case", Class: class, Case: ci.wit,
 				Msg: fmt.Sprintf("%s with %v panicked: %s (%d cells with this root cause)", ci.wit.Tmpl, ci.wit.Vars, ci.msg, ci.n)})
